@@ -6,12 +6,18 @@ import CijModel.Wire
 import CijModel.Ops.C10
 import CijModel.Ops.C12
 import CijModel.Ops.C01
+import CijModel.Ops.C07
+import CijModel.Ops.C15
+import CijModel.Ops.C19
 open Lean Cij.Wire
 
 def handlers : List Handler := [
   Cij.Ops.C10.handle,
   Cij.Ops.C12.handle,
-  Cij.Ops.C01.handle
+  Cij.Ops.C01.handle,
+  Cij.Ops.C07.handle,
+  Cij.Ops.C15.handle,
+  Cij.Ops.C19.handle
 ]
 
 def dispatch (line : String) : Json :=
